@@ -5,6 +5,7 @@
    engine of the Go standard library is not modelled: its output is checked on every run
    against the RFC 1951 decoder of lib/Inflate.v and against zlib. *)
 Require Import Bytes Check Inflate Flate CbufProofs FlateProofs InflateProofs FlateE2EProofs Extracted ExtractedOk.
+Require GoSlices GoMem Translated3 Translated3Ok FlateCbufGen Translated4Cbuf.
 Open Scope N_scope.
 
 (* (1) cbuf: after any sequence of writes the destination holds everything but the last
@@ -195,3 +196,74 @@ Example C12_nonvacuous :
   /\ sr_run (sr_new (mkSrc [[7]] EndEOF)) [RqByte; RqByte; RqRead 3; RqRead 9; RqByte]
      = [([7], RNil); ([0], RNil); ([0; 255; 255], RNil); ([1; 0; 0; 255; 255], RNil); ([], REOF)].
 Proof. vm_compute. repeat split; reflexivity. Qed.
+
+(* ---------------------------------------------------------------------------------------------
+   Tie C4 (source level): wsflate/cbuf.go translated from the Go SOURCE on every run (gen/Translated3.v by
+   `harness translate3`, memory model lib/GoMem.v).  The object is a record threaded through its
+   pointer-receiver methods; its [4]byte field is a slice HANDLE of a heap cell owned by the object, so
+   c.buf[:x], copy(c.buf[:], c.buf[x:]) and copy(c.buf[c.n:], tail) act on that cell.  The destination
+   io.Writer is an ORACLE (any function of the earlier writes and the bytes of this call), read as the
+   destination machine  dw_of wr : log -> bytes -> log ++ [bytes], failed?  of the destination-generic
+   form of the cbuf model (model/FlateCbufGen.v; C12_source_cbuf_model_instance: at (dst, dst_write) it IS
+   cbuf_write of model/Flate.v, about which C12_cbuf_* above speak).
+   cbuf_rep w c g: the handle is a valid 4-byte slice (len = cap = 4) whose cell holds gb_buf g, c.n = gb_n g
+   <= 4, c.err != nil iff gb_err g, and the write log of the world is gb_dst g. *)
+Theorem C12_source_cbuf_write : forall w c g p pb,
+  Translated4Cbuf.cbuf_rep w c g -> GoMem.sl_valid w p ->
+  GoMem.sl_arr p <> GoMem.sl_arr (Translated3.g3_wsflate_cbuf_buf c) ->
+  (GoMem.sl_len p <= Translated3Ok.max_int)%Z -> GoMem.sl_bytes w p = Translated3Ok.zb pb ->
+  let '(g', (n', e')) :=
+    FlateCbufGen.gcbuf_write (Translated4Cbuf.dw_of (Translated3.g3_wsflate_cbuf_dst c)) g pb in
+  exists err' c',
+    Translated3.g3_wsflate_cbuf_Write c p w =
+      GoSlices.Ok ((Z.of_nat n', err', c'),
+          GoMem.mk_world
+            (GoMem.w_heap (GoMemProofs.sl_put w (Translated3.g3_wsflate_cbuf_buf c)
+                             (Translated3Ok.zb (FlateCbufGen.gb_buf g'))))
+            (FlateCbufGen.gb_dst g'))
+    /\ GoSlices.go_is_err err' = e' /\ err' = Translated3.g3_wsflate_cbuf_err c'
+    /\ Translated3.g3_wsflate_cbuf_buf c' = Translated3.g3_wsflate_cbuf_buf c
+    /\ Translated3.g3_wsflate_cbuf_dst c' = Translated3.g3_wsflate_cbuf_dst c
+    /\ Translated4Cbuf.cbuf_rep
+         (GoMem.mk_world
+            (GoMem.w_heap (GoMemProofs.sl_put w (Translated3.g3_wsflate_cbuf_buf c)
+                             (Translated3Ok.zb (FlateCbufGen.gb_buf g'))))
+            (FlateCbufGen.gb_dst g')) c' g'
+    /\ (FlateCbufGen.gb_err g = true -> c' = c /\ g' = g /\ n' = 0%nat).
+Proof. exact Translated4Cbuf.g3_cbuf_Write_ok. Qed.
+Print Assumptions C12_source_cbuf_write.
+
+(* reset: the cell is zeroed, count and error cleared, the destination replaced, nothing else changes *)
+Theorem C12_source_cbuf_reset : forall w c wr',
+  let hb := Translated3.g3_wsflate_cbuf_buf c in
+  GoMem.sl_valid w hb -> GoMem.sl_len hb = 4%Z -> GoMem.sl_cap hb = 4%Z ->
+  forall g, FlateCbufGen.gb_dst g = GoMem.w_out w ->
+  exists c', Translated3.g3_wsflate_cbuf_reset c wr' w =
+      GoSlices.Ok (c', GoMemProofs.sl_put w hb
+                         (Translated3Ok.zb (FlateCbufGen.gb_buf (FlateCbufGen.gcbuf_reset g (GoMem.w_out w)))))
+    /\ Translated3.g3_wsflate_cbuf_buf c' = hb /\ Translated3.g3_wsflate_cbuf_dst c' = wr'
+    /\ Translated4Cbuf.cbuf_rep
+         (GoMemProofs.sl_put w hb (Translated3Ok.zb (FlateCbufGen.gb_buf (FlateCbufGen.gcbuf_reset g (GoMem.w_out w)))))
+         c' (FlateCbufGen.gcbuf_reset g (GoMem.w_out w)).
+Proof. exact Translated4Cbuf.g3_cbuf_reset_ok. Qed.
+Print Assumptions C12_source_cbuf_reset.
+
+(* the destination-generic model at the concrete destination of model/Flate.v is cbuf_write / cbuf_reset *)
+Theorem C12_source_cbuf_model_instance : forall c p d,
+  FlateCbufGen.gcbuf_write dst_write (FlateCbufGen.gc_of_cbuf c) p
+    = (FlateCbufGen.gc_of_cbuf (fst (cbuf_write c p)), snd (cbuf_write c p))
+  /\ FlateCbufGen.gcbuf_reset (FlateCbufGen.gc_of_cbuf c) d = FlateCbufGen.gc_of_cbuf (cbuf_reset d).
+Proof. exact (fun c p d => conj (Translated4Cbuf.gcbuf_write_instance c p) (Translated4Cbuf.gcbuf_reset_instance c d)). Qed.
+Print Assumptions C12_source_cbuf_model_instance.
+
+(* the cell [1;2;3;0] (offset 1 of a 6-byte array) with 3 held bytes, a 6-byte write from a second array,
+   a destination that accepts everything: exactly two destination writes ([1;2;3] then [10;11]), the cell
+   becomes [12;13;14;15], the count 4, the guard bytes around the cell and the second array untouched *)
+Example C12_source_nonvacuous :
+  let wr : GoMem.g_writer Translated3.g_error := fun _ bs => (GoSlices.go_len bs, None) in
+  let w := GoMem.mk_world [[9; 1; 2; 3; 0; 9]%Z; [10; 11; 12; 13; 14; 15]%Z] [] in
+  Translated3.g3_wsflate_cbuf_Write
+    (Translated3.g3_mk_wsflate_cbuf (GoMem.mk_slice 0 1 4 4) 3 wr None) (GoMem.mk_slice 1 0 6 6) w
+  = GoSlices.Ok ((6%Z, None, Translated3.g3_mk_wsflate_cbuf (GoMem.mk_slice 0 1 4 4) 4 wr None),
+        GoMem.mk_world [[9; 12; 13; 14; 15; 9]%Z; [10; 11; 12; 13; 14; 15]%Z] [[1; 2; 3]%Z; [10; 11]%Z]).
+Proof. vm_compute. reflexivity. Qed.
